@@ -199,6 +199,8 @@ type c01state struct {
 	init         bool
 	epochKey     string
 	maxStep      int
+	lastKey      string
+	rebase       bool // a new epoch began: its first knob write (Initialize) may lower the setting left by the previous one
 }
 
 func (s *Set) c01(w *simapi.Write, v *simapi.View) {
@@ -216,6 +218,12 @@ func (s *Set) c01(w *simapi.Write, v *simapi.View) {
 		ek = simapi.Str(s.ro, "status.canaryStatus.canaryRevision") + simapi.Str(s.ro, "status.blueGreenStatus.updatedRevision") + "/" + simapi.Str(ss, "observedRolloutID")
 	}
 	if ek != st.epochKey {
+		if ek != "" {
+			if st.lastKey != "" && strings.SplitN(st.lastKey, "/", 2)[0] != strings.SplitN(ek, "/", 2)[0] {
+				st.rebase = true // another revision is being released (supersession), not merely another rollout-id
+			}
+			st.lastKey = ek
+		}
 		st.epochKey, st.maxStep = ek, 0
 	}
 	if ek != "" && s.step > st.maxStep {
@@ -229,7 +237,17 @@ func (s *Set) c01(w *simapi.Write, v *simapi.View) {
 		return
 	}
 	s.count("c01_knob_writes_seen", 1)
-	if !s.inRolling() || ek == "" || s.st10.cancelling || s.st10.superseding {
+	if s.st10.superseding && s.inRolling() {
+		// between two releases (v2 abandoned for v3): the old BatchRelease is being removed; nothing may raise the setting
+		// beyond what the abandoned step had reached
+		if exp > st.lastExp && R == st.lastReplicas {
+			s.count("c01_raises_checked", 1)
+			s.violate("C01", fmt.Sprintf("c01:exposure-raised-during-supersession:%s/%s", s.S.Kind, s.S.Style), fmt.Sprintf("%s raised the new-revision target of %s from %d to %d pods (replicas %d) while the superseded release is being reset and the new one has not reached any step",
+				w.Actor, w.Key, st.lastExp, exp, R), w, nil)
+		}
+		return
+	}
+	if !s.inRolling() || ek == "" || s.st10.cancelling {
 		return
 	}
 	if workloadImage(wl) == s.stableImg {
@@ -256,6 +274,10 @@ func (s *Set) c01(w *simapi.Write, v *simapi.View) {
 			s.violate("C01", fmt.Sprintf("c01:exposure-exceeds-step:%s/%s", s.S.Kind, s.S.Style), fmt.Sprintf("%s raised the new-revision target of %s from %d to %d pods while the rollout is at step %d which plans %d of %d",
 				w.Actor, w.Key, st.lastExp, exp, st.maxStep, planned, R), w, nil)
 		}
+	case exp < st.lastExp && R == st.lastReplicas && st.rebase:
+		// Initialize of the new release
+		st.rebase = false
+		s.count("c01_epoch_rebases_seen", 1)
 	case exp < st.lastExp && R == st.lastReplicas:
 		s.count("c01_lowerings_seen", 1)
 		s.violate("C01", fmt.Sprintf("c01:knob-moved-back:%s/%s", s.S.Kind, s.S.Style), fmt.Sprintf("%s lowered the new-revision target of %s from %d to %d pods (replicas %d) while the release moves forward (step %d)",
